@@ -8,7 +8,7 @@ import (
 	"time"
 )
 
-var kvProps = map[string]bool{"ALL": true, "C01": true, "C05": true, "C06": true, "C07": true, "C17": true, "C02": true, "C08": true, "C09": true, "C18": true}
+var kvProps = map[string]bool{"ALL": true, "C01": true, "C05": true, "C06": true, "C07": true, "C17": true, "C02": true, "C08": true, "C09": true, "C18": true, "C11": true}
 
 // schedPlans: scenario-name prefixes per property.
 var schedPlans = map[string][]string{
@@ -34,6 +34,7 @@ type genPlan struct {
 
 var genPlans = map[string][]genPlan{
 	"C04": {{kind: "clock", quickDepth: 3, thoroughDepth: 4}, {kind: "clock", cfg: Config{Disk: true}, quickDepth: 3, thoroughDepth: 4}},
+	"C11": {{kind: "isolation", quickDepth: 3, thoroughDepth: 4}, {kind: "isolation", cfg: Config{Disk: true}, quickDepth: 2, thoroughDepth: 3}},
 	"C13": {{kind: "registry", quickDepth: 4, thoroughDepth: 6}},
 	"C14": {{kind: "expiry", quickDepth: 4, thoroughDepth: 5}, {kind: "expiry", cfg: Config{Disk: true}, quickDepth: 3, thoroughDepth: 4}},
 	"C16": {{kind: "feeds", cfg: Config{Disk: true}, quickDepth: 4, thoroughDepth: 5}, {kind: "feeds", quickDepth: 4, thoroughDepth: 5}},
